@@ -91,6 +91,20 @@ def matching_case(case, ctx):
             bw.close()
         kw = dict(in_window=W, out_window=O, max_n_perc=mn, gc_bin_width=bw_w, bigwig=bwp, signal_beta=case["beta"],
                   chroms=sel_chroms, random_state=case["rs"])
+        if case.get("earlier_call_other_loci"):
+            # same genome, same bigWig, same settings - but loci with strong signal, i.e. a much higher signal ceiling
+            rows2 = []
+            for cn, s_ in chroms.items():
+                if sig is not None:
+                    order = numpy.argsort(-numpy.convolve(sig[cn], numpy.ones(W), mode="valid"))[:3]
+                    rows2 += [[cn, int(o), int(o) + W] for o in order]
+                else:
+                    rows2 += [[cn, W, 2 * W]]
+            try:
+                extract_matching_loci(pandas.DataFrame(rows2, columns=["chrom", "start", "end"]), fa, n_jobs=1, **kw)
+            except Exception:  # noqa: BLE001
+                pass
+            ctx.label("after_call_with_other_loci")
         try:
             m = extract_matching_loci(df.copy(), fa, n_jobs=1, **kw)
         except Exception as e:  # noqa: BLE001
@@ -239,6 +253,7 @@ def strategy(draw, max_loci=60):
             "rs": draw(st.integers(0, 10 ** 6))}
     if draw(st.integers(0, 3)) == 0:
         case["chroms"] = sorted(draw(st.sets(st.integers(0, nchr - 1), min_size=1, max_size=nchr)))
+    case["earlier_call_other_loci"] = draw(st.integers(0, 3)) == 0
     if draw(st.integers(0, 14)) == 0:
         case["n_jobs2"] = draw(st.sampled_from([2, 3, 4]))
     return case
